@@ -5,6 +5,7 @@
 #include "libavoid/libavoid.h"
 #include <cstdio>
 #include <map>
+#include <set>
 #include <queue>
 #include <array>
 #include "mcx/mcx.h"
@@ -528,6 +529,44 @@ static void c05_phase(int G, int k, double penCells, bool dirs) {
     });
 }
 
+// Configuration histories: ONE router per (scene, endpoint pair); the segment penalty is changed between transactions that contain nothing
+// else, and after each the raw route must be the optimum for the penalty now in force.  (The documentation of setRoutingParameter: the new
+// value takes effect at the next processTransaction(), which reroutes all connectors.)  seq: the penalties set, in order (cells).
+static void c05_reconfig_phase(int G, int k, const vector<double> &seq, bool onlyDependent = false) {
+    vector<Poly> alpha = shape_alphabet(G, false);
+    string ss; for (double p : seq) ss += mcx::fmt(" %g", p);
+    ctx.phase(mcx::fmt("C05 orthogonal G=%d rects=%d one router per connector, segmentPenalty changed between otherwise empty transactions:%s%s", G, k, ss.c_str(), onlyDependent ? "; only the endpoint pairs whose optimal route depends on the penalty (decided by the oracle: the slope of the optimum between the smallest and largest penalty is not a whole number of bends)" : ""));
+    for_scenes(alpha, k, 1, true, [&](const vector<Poly> &sc) {
+        if (!ctx.next()) return;
+        vector<P> fr = free_points(sc, G); vector<R> rs; for (auto &p : sc) rs.push_back(toR(p));
+        OrthoGrid og(G, rs); ctx.count("states"); ctx.sample("reconfigured " + scene_str(sc));
+        for (size_t a = 0; a < fr.size(); a++) for (size_t b = a + 1; b < fr.size(); b++) {
+            string desc = "scene " + scene_str(sc) + mcx::fmt(" conn (%lld,%lld)->(%lld,%lld) segmentPenalty history:", fr[a].x, fr[a].y, fr[b].x, fr[b].y);
+            try {
+                // does the optimal route really depend on the penalty?  f(p) = min(len + p*bends) is concave and piecewise linear in p; one route is optimal at both
+                // the smallest and the largest penalty of the history only if the slope between them is an integer number of bends
+                { double lo = *min_element(seq.begin(), seq.end()), hi = *max_element(seq.begin(), seq.end()), fl = og.best(fr[a].x, fr[a].y, fr[b].x, fr[b].y, lo, 15, 15, 2), fh = og.best(fr[a].x, fr[a].y, fr[b].x, fr[b].y, hi, 15, 15, 2);
+                  double bb = (fh - fl) / (hi - lo); bool dep = fh < 1e17 && fabs(bb - lround(bb)) > 1e-9; if (dep) ctx.count("nontrivial"); else if (onlyDependent) continue; }
+                if (onlyDependent) { set<double> ps(seq.begin(), seq.end()); for (double pp : ps) {   // a fresh router for each penalty first
+                    Avoid::Router *r0 = mk_router(true, pp * S, 0, sc); Avoid::ConnRef *c0 = mk_conn(r0, fr[a], fr[b], Avoid::ConnDirAll, Avoid::ConnDirAll); r0->processTransaction(); ctx.count("evaluations");
+                    bool dg = false; double c1 = ortho_cost(c0->route(), pp, dg), o1 = og.best(fr[a].x, fr[a].y, fr[b].x, fr[b].y, pp, 15, 15, 2);
+                    if (dg || fabs(c1 - o1) > 1e-6) ctx.violation(dg ? "not_axis_parallel" : c1 > o1 ? "costlier_than_optimal" : "cheaper_than_possible", {}, "scene " + scene_str(sc) + mcx::fmt(" conn (%lld,%lld)->(%lld,%lld) fresh router, segmentPenalty=%g cells", fr[a].x, fr[a].y, fr[b].x, fr[b].y, pp), mcx::fmt("route cost %.9g optimum %.9g route ", c1, o1) + route_str(c0->route()));
+                    delete r0; } }
+                Avoid::Router *r = mk_router(true, seq[0] * S, 0, sc); Avoid::ConnRef *c = mk_conn(r, fr[a], fr[b], Avoid::ConnDirAll, Avoid::ConnDirAll);
+                for (size_t q = 0; q < seq.size(); q++) {
+                    if (q) r->setRoutingParameter(Avoid::segmentPenalty, seq[q] * S);
+                    r->processTransaction(); ctx.count("transitions"); ctx.count("evaluations"); desc += mcx::fmt(" %g", seq[q]);
+                    bool diag = false; double cost = ortho_cost(c->route(), seq[q], diag), o = og.best(fr[a].x, fr[a].y, fr[b].x, fr[b].y, seq[q], 15, 15, 2);
+                    if (diag) ctx.violation("not_axis_parallel", {}, desc, route_str(c->route()));
+                    else if (o < 1e17 && fabs(cost - o) > 1e-6) { ctx.violation(cost > o ? "costlier_than_optimal" : "cheaper_than_possible", {}, desc, mcx::fmt("after the last setting: route cost %.9g optimum %.9g route ", cost, o) + route_str(c->route())); break; }
+                }
+                delete r;
+            } catch (vpsc::CriticalFailure &f) { ctx.library_abort(f.what(), desc); }
+        }
+        ctx.done_case();
+    });
+}
+
 // true minimum number of bends in the free plane between a directed point and a directed target (0-1 BFS, no in-place U-turns)
 static int dxd(unsigned d) { return d == 2 ? 1 : d == 8 ? -1 : 0; }
 static int dyd(unsigned d) { return d == 4 ? 1 : d == 1 ? -1 : 0; }
@@ -590,7 +629,9 @@ int main(int argc, char **argv) {
         c05_bends(T ? 4 : 2);
         for (double pen : {0.5, 1.0, 2.0, 3.0, 10.0}) { c05_phase(4, 1, pen, false); c05_phase(4, 2, pen, false); }   // 1 and 3 cells: exact ties between "one more bend" and "k more cells"
         c05_phase(3, 1, 2, true); c05_phase(4, 1, 2, true); c05_phase(4, 2, 2, true); c05_phase(4, 3, 2, false); c05_phase(4, 3, 1, false);
-        if (T) { for (double pen : {0.5, 1.0, 2.0, 10.0}) c05_phase(5, 2, pen, false); c05_phase(5, 3, 2, false); c05_phase(4, 2, 0.5, true); }
+        c05_reconfig_phase(4, 1, {0.5, 1, 0.5, 3, 0.5, 10, 1, 3, 1, 10, 3, 10, 0.5}); c05_reconfig_phase(4, 2, {1, 10, 0.5}); c05_reconfig_phase(5, 2, {0.5, 1, 0.5, 3, 0.5, 10, 1, 3, 1, 10, 3, 10, 0.5}, true);
+        if (T) { c05_reconfig_phase(4, 3, {1, 10, 0.5}); c05_reconfig_phase(5, 2, {1, 10, 0.5}); c05_reconfig_phase(6, 2, {0.5, 1, 0.5, 3, 0.5, 10, 1, 3, 1, 10, 3, 10, 0.5}, true);
+                 for (double pen : {0.5, 1.0, 2.0, 10.0}) c05_phase(5, 2, pen, false); c05_phase(5, 3, 2, false); c05_phase(4, 2, 0.5, true); }
     } else { fprintf(stderr, "need --prop C03|C04|C05\n"); return 3; }
     return ctx.finish();
 }
